@@ -151,18 +151,27 @@ def run(rep, tier, seed, replay):
     # hook; raw regex matching of a name against a program)
     if replay is None or (replay["input"].get("mode") == "g" and replay["input"].get("stack") == "f:"):
         gobs = [c for c in walklib.gen_cases(seed + 4, 420 if tier == "quick" else 5000, stack=lambda r, v, d: ("f:", "o", []), bounds="none", mode="g", link="f")
-                if c.labels["base"] in ("root", "subdir") and not c.expr.startswith(("/", "@ROOT", "."))]
+                if c.labels["base"] in ("root", "subdir") and not c.expr.startswith(".") and "/../" not in c.expr and "/./" not in c.expr]
         if replay is not None:
             gobs = [walklib.case_from(replay["input"])]
         walklib.run_cases(gobs)
         rep.evaluations += len(gobs)
         walklib.correspondence_step(rep, gobs, "glob walk then observer")
         hh = common.harness()
-        wps = hh.ask(["WP - %s" % hx(c.expr) for c in gobs])
+        wps = hh.ask(["WP %s %s" % (c.f.get("base", "-").replace("40.52", c.f.get("root_real", "-")) if "base" in c.f else "-",
+                                    hx(c.expr.replace("@ROOT", unhx(c.f.get("root_real", "-"))))) for c in gobs])
         reqs, owner = [], []
         info = {}
+
+        def components(c, pth, base):
+            """the Normal components of the relative segment of a fed path: the whole path for a rooted glob"""
+            if c.expr.startswith(("/", "@ROOT")):
+                full = pth.replace("@R", unhx(c.f.get("root_real", "-")))
+                return [x for x in full.split("/") if x]
+            rel = pth[len(base):].strip("/")
+            return [x for x in rel.split("/") if x] if rel else []
         for ci, (c, wp) in enumerate(zip(gobs, wps)):
-            if not c.head.startswith("root=") or " pivot=0 " not in wp + " ":
+            if not c.head.startswith("root=") or not wp.startswith("root="):
                 continue
             f = dict(x.split("=", 1) for x in wp.split(" ") if "=" in x)
             progs = [] if f.get("progs", "-") == "-" else f["progs"].split(";")
@@ -174,8 +183,7 @@ def run(rep, tier, seed, replay):
             info[ci] = (progs, base, fed)
             names = set()
             for pth in fed:
-                rel = pth[len(base):].strip("/")
-                comps = rel.split("/") if rel else []
+                comps = components(c, pth, base)
                 for i, nm in enumerate(comps[:-1]):          # proper ancestors only
                     if i < len(progs):
                         names.add((i, nm))
@@ -190,8 +198,7 @@ def run(rep, tier, seed, replay):
             c = gobs[ci]
             bad = None
             for pth in fed:
-                rel = pth[len(base):].strip("/")
-                comps = rel.split("/") if rel else []
+                comps = components(c, pth, base)
                 for i, nm in enumerate(comps[:-1]):
                     if (i, nm) in rejected.get(ci, set()):
                         bad = (pth, "/".join(comps[:i + 1]), i)
